@@ -1525,8 +1525,17 @@ where
             return;
         };
 
-        let props_types = self.extract_props_type(maybe_setup);
-        let emits_types = self.extract_emits_type(maybe_setup);
+        // nothing is derived (nor imported for it) where the call already has the option
+        let props_types = if accepts_define_component_option(call_expr, "props") {
+            self.extract_props_type(maybe_setup)
+        } else {
+            None
+        };
+        let emits_types = if accepts_define_component_option(call_expr, "emits") {
+            self.extract_emits_type(maybe_setup)
+        } else {
+            None
+        };
         if let Some(prop_types) = props_types {
             inject_define_component_option(call_expr, "props", prop_types);
         }
@@ -1610,10 +1619,11 @@ fn jsx_member_expr_to_expr(JSXMemberExpr { span, obj, prop }: &JSXMemberExpr) ->
     })
 }
 
-fn inject_define_component_option(call: &mut CallExpr, name: &'static str, value: Expr) {
-    // a spread argument list is left alone
+/// Whether an option named `name` may be added to the call: a spread argument list is left
+/// alone, and whatever the user wrote wins, however the key is spelled.
+fn accepts_define_component_option(call: &CallExpr, name: &str) -> bool {
     if call.args.iter().any(|arg| arg.spread.is_some()) {
-        return;
+        return false;
     }
 
     let is_named = |key: &PropName| match key {
@@ -1625,34 +1635,41 @@ fn inject_define_component_option(call: &mut CallExpr, name: &'static str, value
         _ => false,
     };
 
+    match call.args.get(1).map(|options| &*options.expr) {
+        Some(Expr::Object(object)) => !object.props.iter().any(|prop| match prop {
+            PropOrSpread::Prop(prop) => match &**prop {
+                Prop::KeyValue(KeyValueProp { key, .. })
+                | Prop::Getter(GetterProp { key, .. })
+                | Prop::Setter(SetterProp { key, .. })
+                | Prop::Method(MethodProp { key, .. }) => is_named(key),
+                Prop::Shorthand(ident) => ident.sym == name,
+                Prop::Assign(..) => false,
+            },
+            PropOrSpread::Spread(..) => false,
+        }),
+        _ => true,
+    }
+}
+
+fn inject_define_component_option(call: &mut CallExpr, name: &'static str, value: Expr) {
+    if !accepts_define_component_option(call, name) {
+        return;
+    }
+
     match call.args.get_mut(1).map(|options| &mut *options.expr) {
         Some(Expr::Object(object)) => {
-            // whatever the user wrote wins, however the key is spelled
-            let defined = object.props.iter().any(|prop| match prop {
-                PropOrSpread::Prop(prop) => match &**prop {
-                    Prop::KeyValue(KeyValueProp { key, .. })
-                    | Prop::Getter(GetterProp { key, .. })
-                    | Prop::Setter(SetterProp { key, .. })
-                    | Prop::Method(MethodProp { key, .. }) => is_named(key),
-                    Prop::Shorthand(ident) => ident.sym == name,
-                    Prop::Assign(..) => false,
-                },
-                PropOrSpread::Spread(..) => false,
-            });
-            if !defined {
-                let prop = PropOrSpread::Prop(Box::new(Prop::KeyValue(KeyValueProp {
-                    key: PropName::Ident(quote_ident!(name)),
-                    value: Box::new(value),
-                })));
-                // and so does whatever the user spreads into the options
-                match object
-                    .props
-                    .iter()
-                    .position(|prop| matches!(prop, PropOrSpread::Spread(..)))
-                {
-                    Some(index) => object.props.insert(index, prop),
-                    None => object.props.push(prop),
-                }
+            let prop = PropOrSpread::Prop(Box::new(Prop::KeyValue(KeyValueProp {
+                key: PropName::Ident(quote_ident!(name)),
+                value: Box::new(value),
+            })));
+            // whatever the user spreads into the options wins as well
+            match object
+                .props
+                .iter()
+                .position(|prop| matches!(prop, PropOrSpread::Spread(..)))
+            {
+                Some(index) => object.props.insert(index, prop),
+                None => object.props.push(prop),
             }
         }
         Some(..) => {
